@@ -1,8 +1,12 @@
 use crate::policy::PolicyInner;
 use crate::sync::{select, spawn, stop_channel, JoinHandle, Receiver, Sender};
 use crate::{CacheError, MetricType, Metrics};
+#[cfg(not(transparencies_stretto_verif))]
 use crossbeam_channel::{bounded, RecvError};
+#[cfg(not(transparencies_stretto_verif))]
 use parking_lot::Mutex;
+#[cfg(transparencies_stretto_verif)]
+use stretto_sim_rt::sync::{bounded, Mutex, RecvError};
 use std::collections::hash_map::RandomState;
 use std::hash::BuildHasher;
 use std::sync::atomic::{AtomicBool, Ordering};
@@ -46,8 +50,14 @@ impl<S: BuildHasher + Clone + 'static> LFUPolicy<S> {
 
     pub fn push(&self, keys: Vec<u64>) -> Result<bool, CacheError> {
         if self.is_closed.load(Ordering::SeqCst) {
+            #[cfg(transparencies_stretto_verif)]
+            crate::verif::policy_push(&keys, false, self.items_tx.len(), true);
             return Ok(false);
         }
+        #[cfg(transparencies_stretto_verif)]
+        let verif_keys = keys.clone();
+        #[cfg(transparencies_stretto_verif)]
+        let verif_qlen = self.items_tx.len();
         let num_of_keys = keys.len() as u64;
         if num_of_keys == 0 {
             return Ok(true);
@@ -57,14 +67,20 @@ impl<S: BuildHasher + Clone + 'static> LFUPolicy<S> {
             send(self.items_tx, keys) -> res =>
                 res
                 .map(|_| {
+                    #[cfg(transparencies_stretto_verif)]
+                    crate::verif::policy_push(&verif_keys, true, verif_qlen, false);
                     self.metrics.add(MetricType::KeepGets, first, num_of_keys);
                     true
                 })
                 .map_err(|e| {
+                    #[cfg(transparencies_stretto_verif)]
+                    crate::verif::policy_push(&verif_keys, false, verif_qlen, false);
                     self.metrics.add(MetricType::DropGets, first, num_of_keys);
                     CacheError::SendError(format!("sending on a disconnected channel, msg: {:?}", e.0))
                 }),
             default => {
+                #[cfg(transparencies_stretto_verif)]
+                crate::verif::policy_push(&verif_keys, false, verif_qlen, false);
                 self.metrics.add(MetricType::DropGets, first, num_of_keys);
                 Ok(false)
             }
@@ -124,6 +140,8 @@ impl<S: BuildHasher + Clone + 'static> PolicyProcessor<S> {
         match items {
             Ok(items) => {
                 let mut inner = self.inner.lock();
+                #[cfg(transparencies_stretto_verif)]
+                crate::verif::policy_applied(&items);
                 inner.admit.increments(items);
             }
             #[cfg(feature = "log")]
